@@ -766,3 +766,34 @@ def r9_back_references_left_out_by_name(ctx) -> None:
                               construct=f"{eqm.qualname} stale name {s_}")
     if n < 1:
         ctx.floor("R9", 99)
+
+
+def r10_one_searcher_per_database(ctx) -> None:
+    """A rule database belongs to one searcher: `link_searcher` refuses whenever a link exists
+    already -- under no further condition (an *equal* pack is not the *same* universe: labels
+    are handed out by the other searcher's class database)."""
+    P = ctx.P
+    n = 0
+    for cls in P.classes.values():
+        m = cls.methods.get("link_searcher")
+        if m is None:
+            continue
+        f = m.node
+        stores = [t.attr for st in walk_local(f) if isinstance(st, ast.Assign) for t in st.targets if is_self_attr(t) and isinstance(st.value, ast.Name) and st.value.id in m.params()[1:]]
+        raises = [r for r in walk_local(f) if isinstance(r, ast.Raise)]
+        if not stores or not raises:
+            continue
+        n += 1
+        for r in raises:
+            gs = [(norm(t), p_) for t, p_ in C.flatten_guards(C.guards(f, r))]
+            linkish = [t for t, p_ in gs if p_ and any(t == f"self.{a} is not None" for a in stores)]
+            # a refusal stated as a disjunction over the links is a refusal whenever one of them exists
+            disj = [t for t, p_ in gs if p_ and " or " in t and all(any(f"self.{a} is not None" in part for a in stores) for part in t.split(" or "))]
+            extra = [t for t, p_ in gs if t not in linkish and t not in disj]
+            if (linkish or disj) and not extra:
+                ctx.ok("R10", f"{m.qualname} refuses a second link unconditionally")
+            else:
+                ctx.violation("R10", r, f"{m.qualname} refuses a second searcher only under {[t for t, _ in gs][:3]}: a database can be handed to another searcher (with an equal pack) "
+                              "and from then on holds rules whose labels mean different classes in the two class databases")
+    if n < 1:
+        ctx.floor("R10", 99)
